@@ -336,3 +336,64 @@ package model
 //@   nopanic
 //@   ensures [single] fresh(result.Weights) && criterion.Id in result.Weights && result.Weights[criterion.Id] == value
 //@             && forall q string :: q in result.Weights ==> q == criterion.Id
+
+// ---- the Bias interface (C07): every bias maps a well-formed state to a well-formed state over the same alternatives
+
+//@ pred sameAlts(x DecisionMakingParams, y DecisionMakingParams) =
+//@      len(x.ConsideredAlternatives) == len(y.ConsideredAlternatives) && len(x.NotConsideredAlternatives) == len(y.NotConsideredAlternatives)
+//@   && (forall i int :: 0 <= i && i < len(y.ConsideredAlternatives) ==> x.ConsideredAlternatives[i].Id == y.ConsideredAlternatives[i].Id)
+//@   && (forall i int :: 0 <= i && i < len(y.NotConsideredAlternatives) ==> x.NotConsideredAlternatives[i].Id == y.NotConsideredAlternatives[i].Id)
+//@ pred distinctAlts(d DecisionMakingParams) =
+//@      (forall i int, j int :: 0 <= i && i < j && j < len(d.ConsideredAlternatives) ==> d.ConsideredAlternatives[i].Id != d.ConsideredAlternatives[j].Id)
+//@   && (forall i int, j int :: 0 <= i && i < j && j < len(d.NotConsideredAlternatives) ==> d.NotConsideredAlternatives[i].Id != d.NotConsideredAlternatives[j].Id)
+//@   && (forall i int, j int :: 0 <= i && i < len(d.ConsideredAlternatives) && 0 <= j && j < len(d.NotConsideredAlternatives) ==> d.ConsideredAlternatives[i].Id != d.NotConsideredAlternatives[j].Id)
+//@ pred wellFormed(l BiasListener, d DecisionMakingParams) = coherent(l, d) && distinctAlts(d)
+
+//@ ifacemethod Bias.Apply
+//@   requires [current_well_formed] current != nil && original != nil && wellFormed(*listener, *current)
+//@   requires [original_well_formed] wellFormed(*listener, *original) && len(original.Criteria) > 0
+//@   ensures [state] result != nil && result.DMP != nil
+//@   ensures [well_formed] wellFormed(*listener, *result.DMP)
+//@   ensures [same_alternatives] sameAlts(*result.DMP, *current)
+
+// ---- decision-maker.go: the bias pipeline (C07, C08)
+
+// listenerOf: the listener registered under a name (uninterpreted; BiasListeners.Fetch is specified to return it)
+//@ spec listenerOf(ls BiasListeners, name string) BiasListener
+//@ func (*BiasListeners).Fetch
+//@   trusted
+//@   ensures result != nil && *result == listenerOf(*pf, listenerName)
+
+//@ pred fires(dm *DecisionMaker, gen utils.SeededValueGenerator, biases *BiasesWithProps, i int) =
+//@      (*biases)[i].Props.ApplyProbability > draw(appfn(gen, dm.BiasApplyRandomSeed), i)
+
+//@ func (*DecisionMaker).processBiases
+//@   property C07 C08
+//@   fnparam biasApplyProbGenerator pure
+//@   fnparam generator ensures 0.0 <= result && result < 1.0
+//@   requires forall i int :: 0 <= i && i < len(*biases) ==> (*biases)[i].Bias != nil && (*biases)[i].Props != nil
+//@   requires params != nil && wellFormed(listenerOf(*listeners, dm.PreferenceFunction), *params) && len(params.Criteria) > 0
+//@   ensures [C08 one_entry_per_bias] fresh(result1) && len(*result1) == len(*biases)
+//@   ensures [C08 echo] forall i int :: 0 <= i && i < len(*biases) ==> typeis((*result1)[i], BiasParams)
+//@             && (*result1)[i].(BiasParams).Name == (*biases)[i].Props.Name
+//@             && (*result1)[i].(BiasParams).ApplyProbability == (*biases)[i].Props.ApplyProbability && !(*result1)[i].(BiasParams).Disabled
+//@   ensures [C08 not_fired_reports_null] forall i int :: 0 <= i && i < len(*biases) && !fires(dm, biasApplyProbGenerator, biases, i) ==> isnil((*result1)[i].(BiasParams).Props)
+//@   ensures [C08 nothing_fired_changes_nothing] (forall i int :: 0 <= i && i < len(*biases) ==> !fires(dm, biasApplyProbGenerator, biases, i)) ==> result0 == params
+//@   ensures [C07 well_formed] result0 != nil && wellFormed(listenerOf(*listeners, dm.PreferenceFunction), *result0)
+//@   ensures [C07 same_alternatives] sameAlts(*result0, *params)
+//@   loop 1 invariant [draws] generator == appfn(biasApplyProbGenerator, dm.BiasApplyRandomSeed) && calls(generator) == iter
+//@   loop 1 invariant [ctx] fresh(result) && len(result) == len(*biases) && biasesToProcessCount == len(*biases) && listener != nil && *listener == listenerOf(*listeners, dm.PreferenceFunction)
+//@   loop 1 invariant [state] current != nil && wellFormed(listenerOf(*listeners, dm.PreferenceFunction), *current) && sameAlts(*current, *params)
+//@   loop 1 invariant [echo] forall i int :: 0 <= i && i < iter ==> typeis(result[i], BiasParams)
+//@             && result[i].(BiasParams).Name == (*biases)[i].Props.Name
+//@             && result[i].(BiasParams).ApplyProbability == (*biases)[i].Props.ApplyProbability && !result[i].(BiasParams).Disabled
+//@   loop 1 invariant [not_fired] forall i int :: 0 <= i && i < iter && !fires(dm, biasApplyProbGenerator, biases, i) ==> isnil(result[i].(BiasParams).Props)
+//@   loop 1 invariant [untouched] (forall i int :: 0 <= i && i < iter ==> !fires(dm, biasApplyProbGenerator, biases, i)) ==> current == params
+
+//@ lemma [C08] probability_one_always_fires: forall p real, u real
+//@   requires 0.0 <= u && u < 1.0
+//@   ensures  p >= 1.0 ==> p > u
+//@   ensures  p <= 0.0 ==> !(p > u)
+//@ lemma [C08] firing_is_monotone_in_probability: forall p real, q real, u real
+//@   requires p <= q && p > u
+//@   ensures  q > u
